@@ -701,3 +701,10 @@ Proof.
     + rewrite (Hfn i c f Hc Hf), rs_elems_0, usage_lints_nil in Hin. destruct Hin.
   - destruct Hin as (i & c & Hc & Hlen). specialize (Hshare i c Hc). lia.
 Qed.
+
+(* the jump that replaces an additional return keeps the replaced return's place (fix 41a4d47) *)
+Lemma rewritten_return_place : forall found exit_ : cnode,
+  node_raw (rewritten_return found exit_) = node_raw (cn found) /\
+  node_loc (set_cn (set_nexts found [0%nat]) (rewritten_return found exit_)) = node_loc found.
+Proof. intros found exit_. split; reflexivity. Qed.
+
